@@ -185,7 +185,7 @@ func runTree(sci interface{}) {
 	srv.F.Stop()
 	detsim.FairMode()
 	if sc.PeriodMs <= 0 && !t.rootDown() {
-		time.Sleep(1500 * time.Millisecond)
+		waitQuiet(recoveryBound, func() bool { return t.rootDown() || h.WatchLossPossible() || sc.WatchMode != "" || rootInSync(h) })
 	}
 	if t.failAt > 0 {
 		t.listFailureChecks()
@@ -423,7 +423,7 @@ func (t *treeRun) finalChecks() {
 	if !t.rootDown() && detsim.IsClosed(h.Ctrl.Ready()) && sc.WatchMode == "" {
 		probe := t.srv.Apply(world.Spec{NS: "n1", Name: "a", Labels: map[string]string{"app": "a", "tier": "x", "probe": "1"}})
 		if sc.PeriodMs <= 0 {
-			time.Sleep(1500 * time.Millisecond)
+			waitQuiet(recoveryBound, func() bool { return t.rootDown() || h.WatchLossPossible() || rootInSync(h) })
 		} else {
 			time.Sleep(sc.period()*3 + ms(sc.ListLatMs[0]+sc.ListLatMs[1])*2 + 2*time.Second)
 		}
